@@ -160,10 +160,11 @@ class QvmEval(EvaluationContext):
                 f'{lvalue.base_var} is a constant; it has no elements '
                 'or fields')
         elif lvalue.base_var in routine.local_consts:
-            return routine.local_consts[lvalue.base_var].eval()
+            const = routine.local_consts[lvalue.base_var]
+            return self.const_cell_value(const.type, const.eval())
         elif lvalue.base_var in self.global_consts:
             const_type, const_value = self.global_consts[lvalue.base_var]
-            return const_value
+            return self.const_cell_value(const_type, const_value)
 
         base_type = lvalue.base_type
         segment, base_idx = self.eval_var(lvalue.base_var)
@@ -173,6 +174,11 @@ class QvmEval(EvaluationContext):
             segment = cell_value.value.segment
             base_idx = cell_value.value.index
             cell_value = segment.get_cell(base_idx)
+        elif base_type.is_array and not base_type.is_static_array:
+            # a dynamic array lives behind a reference; without one its
+            # DIM has not executed yet
+            raise EvalError(
+                f'{lvalue.base_var} has not been dimensioned yet')
 
         if not base_type.is_array and not base_type.is_user_defined:
             if lvalue.array_indices:
@@ -217,6 +223,18 @@ class QvmEval(EvaluationContext):
             raise EvalError(
                 f'{lvalue.base_var} does not have a value yet')
 
+        return value
+
+    @staticmethod
+    def const_cell_value(const_type, value):
+        # what the program sees when it uses the constant: the value as
+        # a cell of the constant's type holds it (CONST c = 0.1 is the
+        # SINGLE nearest to 0.1)
+        if const_type.is_numeric:
+            try:
+                return const_type.coerce(value)
+            except (OverflowError, ValueError):
+                raise EvalError('The value of the constant cannot be computed')
         return value
 
     def eval_var(self, var):
@@ -282,8 +300,12 @@ class QvmEval(EvaluationContext):
                     base_idx += mul(rest_dim_sizes[1:]) * element_size
                 return array
 
+        if base_idx + 2 >= len(segment.cells):
+            # a dynamic array whose DIM has not executed yet: its cell
+            # is still empty and what follows it is not an array header
+            raise EvalError('Array not initialized')
         n_dims = segment.get_cell(base_idx + 1)
-        if n_dims is None:
+        if n_dims is None or segment.get_cell(base_idx + 2) is None:
             raise EvalError('Array not initialized')
         n_dims = n_dims.value
 
